@@ -491,6 +491,16 @@ pub fn run_thr(trace: &Trace) -> (RunReport, Vec<u8>) {
                     );
                 }
             }
+            // C12 (applied order): deque order = order of the last applied uses
+            {
+                let (n, bad) = crate::hooks::check_applied_order(&shared, &snap);
+                if n > 0 {
+                    rep.flag("c12_applied_order_pairs", n);
+                }
+                if let Some(msg) = bad {
+                    rep.viol("C12.applied-order", format!("after quiescence: {}", msg), srep.steps, None);
+                }
+            }
             // C11: live objects (the harness holds none at this point)
             let (lk, lv) = (reg.live_keys(), reg.live_vals());
             rep.flag("c11_quiescent_checks", 1);
@@ -1331,6 +1341,7 @@ fn thr_stream(pop: &str) -> Option<u64> {
         "thr-callback" => 27,
         "thr-warm" => 28,
         "thr-iter-mixed" => 29,
+        "thr-inval" => 30,
         _ => return None,
     })
 }
@@ -1553,6 +1564,81 @@ pub fn generate(pop: &str, seed: u64, run: u64) -> Option<Trace> {
                 prog.push(OpRec::plain(Op::IterEnd));
                 if rng.chance(1, 3) {
                     prog.push(OpRec::plain(Op::Iter));
+                }
+                threads.push(prog);
+            }
+        }
+        "thr-inval" => {
+            // invalidate_all / invalidate racing with inserts, reads, maintenance and a clock
+            // that moves in 1 ns steps: the watermark (valid_after) is compared with clock
+            // readings, so its races need an advance at the right place. Mostly unbounded
+            // (strict register: a value may neither reappear nor be hidden spuriously).
+            cfg.cap = *rng.pick(&[None, None, None, Some(16), Some(2)]);
+            cfg.weigher = cfg.weigher && rng.chance(1, 3);
+            if rng.chance(3, 4) {
+                cfg.ttl = None;
+                cfg.tti = None;
+            } else {
+                if cfg.ttl == Some(0) {
+                    cfg.ttl = Some(SEC);
+                }
+                if cfg.tti == Some(0) {
+                    cfg.tti = Some(SEC);
+                }
+            }
+            let nthreads = rng.range(2, 4) as usize;
+            let nkeys = rng.range(1, 2) as u16;
+            let faulty = rng.chance(1, 3);
+            // sometimes the cache already holds entries and/or a watermark
+            if rng.chance(1, 2) {
+                for k in 0..nkeys {
+                    if rng.chance(2, 3) {
+                        prologue.push(OpRec::plain(Op::Insert { k, vid: next_vid, w: 1 }));
+                        next_vid += 1;
+                    }
+                }
+                prologue.push(OpRec::plain(Op::Sync));
+            }
+            for t in 0..nthreads {
+                let len = rng.range(1, 6) as usize;
+                let mut prog = Vec::new();
+                let maint_thread = t == nthreads - 1 && nthreads > 2 && rng.chance(1, 3);
+                for _ in 0..len {
+                    let op = if maint_thread {
+                        if rng.chance(2, 3) {
+                            Op::Sync
+                        } else {
+                            Op::Get { k: rng.below(nkeys as u64) as u16 }
+                        }
+                    } else {
+                        match rng.weighted(&[5, 5, 3, 2, 5, 2, 1, 1]) {
+                            0 => {
+                                let vid = next_vid;
+                                next_vid += 1;
+                                Op::Insert { k: rng.below(nkeys as u64) as u16, vid, w: 1 }
+                            }
+                            1 => Op::Get { k: rng.below(nkeys as u64) as u16 },
+                            2 => Op::InvalidateAll,
+                            3 => Op::Invalidate { k: rng.below(nkeys as u64) as u16 },
+                            4 => Op::Advance { ns: *rng.pick(&[1u64, 1, 1, MS, 501 * MS]) },
+                            5 => Op::Sync,
+                            6 => Op::Contains { k: rng.below(nkeys as u64) as u16 },
+                            _ => Op::Iter,
+                        }
+                    };
+                    let mut f = Faults::default();
+                    if faulty {
+                        if matches!(op, Op::Get { .. }) && rng.chance(1, 6) {
+                            f.read_drop = true;
+                        }
+                        if matches!(op, Op::Get { .. } | Op::Insert { .. } | Op::Invalidate { .. }) && rng.chance(1, 5) {
+                            f.hk_contended = rng.range(1, 3) as u8;
+                        }
+                        if matches!(op, Op::Insert { .. } | Op::Invalidate { .. }) && rng.chance(1, 8) {
+                            f.write_full = rng.range(1, 4) as u8;
+                        }
+                    }
+                    prog.push(OpRec { op, f });
                 }
                 threads.push(prog);
             }
